@@ -7,6 +7,9 @@ def T(qcases, tcases, qbudget=240, tbudget=1500, workers=16):
             "thorough": dict(cases=tcases, budget_s=tbudget, workers=workers)}
 
 PROPS = {
+    "C18": dict(sources=["props/C18.cpp", "props/C18_sw.c"], jls=True, enumerate=True, tiers=T(3000, 40000),
+                assumptions=["bit-serial reference implements the standard CRC-32C definition (check value 0xE3069283 asserted)",
+                             "crc32c_arm_neon.c cannot be compiled on this x86 sandbox: not covered"]),
     "C20": dict(sources=["props/C20.cpp"], jls=True, tiers=T(4000, 60000),
                 assumptions=["long double (x87 80-bit) two-pass reference is exact enough for n <= 10^4",
                              "error bounds: mean 2(n+4)eps*A; S 8n*eps*(S+A*sqrt(nS))+4n^3eps^2A^2 (Welford/pairwise bound)"]),
@@ -15,6 +18,10 @@ PROPS = {
 HOOK_COMMITS = []
 
 MANIFEST_TEXT = {
+    "C18": dict(
+        technique="exhaustive enumeration of lengths x alignments + rapidcheck differential (SSE4.2 build vs table build vs bit-serial reference)",
+        level_text="Complete for every length 0..4096 x alignment 0..7 x 4 content classes, all 8x256 table words against the polynomial and the check value; beyond that generated lengths up to 16 MiB at alignments 0..63 and random headers (hdr variant == general function over 28 bytes) are sampled. Both the SSE4.2 and the JLS_OPTIMIZE_CRC_DISABLE build are compiled from the working tree into one process.",
+        level_note="Trusted: the 6-line bit-serial reference. Not covered: ARM NEON path (not compilable here). Exact-size heap buffers under ASan catch over-reads."),
     "C20": dict(
         technique="property-based testing (rapidcheck tape) against a long-double two-pass reference; algebraic laws (identity, aliasing) checked bitwise",
         level_text="Generated sequences (explicit small ones and seven patterns up to 10^4 samples over 200 decades), split points, per-part accumulation method, combine order and aliasing; k/min/max exact, mean and S within a stated rounding bound of a long-double reference, variance >= 0, identity and aliasing bit-exact. Sampling, not proof; failures shrink to a few explicit values.",
